@@ -48,6 +48,16 @@ def cases(tier, rng):
                 yield Case("intervals.is_perfect_consonant", [a, b, f], "perfect")
                 yield Case("intervals.is_dissonant", [a, b, f], "dissonant")
 
+    # measure / consonance on names with MANY accidentals (all of one kind, 12-14 and 24-26 of them; and long mixed runs)
+    longs = [l + acc * k for l in "CFB" for acc in "#b" for k in (11, 12, 13, 14, 24, 25, 26)] + \
+            [rng.choice(LETTERS) + "".join(rng.choice("#b") for _ in range(rng.randint(7, 30))) for _ in range(20)]
+    for a in longs:
+        for b in ("C", "B", "F#", "Gb", rng.choice(longs)):
+            yield Case("intervals.measure", [a, b], "measure/long")
+            yield Case("intervals.measure", [b, a], "measure/long")
+            yield Case("intervals.is_consonant", [a, b, True], "consonant/long")
+            yield Case("intervals.is_dissonant", [b, a, False], "dissonant/long")
+
 def oracle(c, obs):
     fn, a = c["fn"], c["args"]
     if fn == "intervals.ctor":
